@@ -128,7 +128,8 @@ Inductive dm_ans :=
 | DaNat (n : N)
 | DaDoc (r : res doc)
 | DaEntry (r : res dentry)
-| DaList (l : list dentry).
+| DaList (l : list dentry)
+| DaTrap.
 
 Definition dm_answer (c : dm_cfg) (s : dm_state) (q : dm_query) : dm_ans :=
   match q with
@@ -145,5 +146,6 @@ Definition dm_ans_eqb (a b : dm_ans) : bool :=
   | DaDoc x, DaDoc y => res_eqb doc_eqb x y
   | DaEntry x, DaEntry y => res_eqb dentry_eqb x y
   | DaList x, DaList y => list_eqb dentry_eqb x y
+  | DaTrap, DaTrap => true
   | _, _ => false
   end.
